@@ -301,10 +301,12 @@ fn track_walk<'a>(node: &ast::Stmt<'a>, state: &mut AssignmentTracker<'a>) {
         }),
         #[cfg(feature = "macros")]
         ast::Stmt::Macro(stmt) => {
-            state.assign(stmt.name);
             state.push();
             tracker_visit_macro(stmt, state, true);
             state.pop();
+            // the name is stored after the macro was built: a macro that refers
+            // to itself encloses (and thus looks up) its name before that.
+            state.assign(stmt.name);
         }
         #[cfg(feature = "macros")]
         ast::Stmt::CallBlock(stmt) => {
